@@ -124,7 +124,8 @@ def gen_rule(rng, is_date, valid=True):
             r.pop("bymonth", None) if maybe(0.7) else None
             r["byyearday"] = _ilist(rng, 1, 366, neg=True, must=(366, -366, 1, 60, 59, -1, 365))
         elif shape == "weekno":
-            r.pop("bymonth", None)
+            if not maybe(0.3):
+                r.pop("bymonth", None)          # (kept in three cases out of ten: the week's days that lie in those months)
             r["byweekno"] = _ilist(rng, 2, 51, neg=False) if maybe(0.8) else [rng.choice([-3, -10, -25, -50])]
             r["byday"] = [(0, w) for w in _ilist(rng, 0, 6, nmax=4)]
             if maybe(0.3):
